@@ -354,6 +354,7 @@ class Engine:
                 saver.export_audio()
             for o in observers:
                 if isinstance(o, W.AudioEventsJoinerWorker):
+                    o.join()  # as cmdline.main does before exporting
                     o.export_audio()
             res["complete"] = True
 
